@@ -126,7 +126,7 @@ package handlers
 
 // A header is appended to the store (pre-start phase) only on top of the store's tip.
 //@ func (HeadersHandler).checkStartHeight
-//@   serves C02
+//@   serves C02 C10
 //@   opt nomonitor = 1
 //@   requires header != nil && handler.state != nil && repoOK(handler.blocks)
 //@   requires handler.state.startHeight == -1 ==> header.PrevBlock == tipHash(handler.blocks)
@@ -135,6 +135,9 @@ package handlers
 //@        && handler.state.startHeight == -1 && old(handler.state.startHeight) == -1 && repoOK(handler.blocks)
 //@   ensures start_found: result0 ==> handler.state.startHeight != -1 && storage.memSame(handler.blocks) && stsame()
 //@   ensures failed_unchanged: result1 != nil ==> storage.memSame(handler.blocks) && stsame()
+// a header whose storage write failed is not the state's last hash either: the state and the store
+// stay in step, so the peer's re-send of that header is appended instead of skipped as known
+//@   ensures failed_keeps_state_in_step: [C10 C02] result1 != nil ==> handler.state.lastSavedHash == old(handler.state.lastSavedHash) && handler.state.startHeight == old(handler.state.startHeight)
 //@   ensures keeps_repo: repoOK(handler.blocks) && *header == old(*header)
 
 // While the start block has not been found no block is requested and the state's last hash is the
